@@ -125,12 +125,25 @@ class ArrayConstraintBuilder(ConstraintOverrideVisitor):
         
         if not is_x:
             # Condition is a constant
+            scope_i = self.scope_i
+            taken_c = None
             if val:
                 # Process 'true' condition
+                taken_c = c.true_c
                 c.true_c.accept(self)
             elif c.false_c is not None:
                 # Process 'false' condition
+                taken_c = c.false_c
                 c.false_c.accept(self)
+                
+            if (self.do_copy_level == 0 and len(self.scope_s) > 0
+                and scope_i < len(self.scope_s[-1].constraint_l)
+                and self.scope_s[-1].constraint_l[scope_i] is c):
+                # Only the branch that is taken has been expanded. It 
+                # stands in for the whole statement in this call
+                self.scope_i = scope_i
+                self.override_constraint(
+                    taken_c if taken_c is not None else ConstraintScopeModel())
         else:
             super().visit_constraint_if_else(c)
 
